@@ -1,0 +1,2 @@
+//! verif::joining — guarded hooks (cfg rustybuzz_verif).
+#![allow(unused_imports)]
